@@ -1,3 +1,77 @@
 package main
 
-func emitRuntimeFacts(pkgs map[string]*parsed) string { return "" }
+import (
+	"go/ast"
+	"strings"
+)
+
+// callSeq walks fn's body in source order and maps recognised calls to tokens; deferred
+// calls are appended at the end in LIFO order (they run at function exit).
+func callSeq(fn *ast.FuncDecl, table map[string]string) []string {
+	if fn == nil {
+		return nil
+	}
+	var seq, deferred []string
+	var visit func(n ast.Node, inDefer bool)
+	visit = func(n ast.Node, inDefer bool) {
+		ast.Inspect(n, func(m ast.Node) bool {
+			switch x := m.(type) {
+			case *ast.FuncLit:
+				return false // closures are analysed separately
+			case *ast.DeferStmt:
+				if tok, ok := table[exprText(x.Call.Fun)]; ok {
+					deferred = append([]string{tok}, deferred...)
+				}
+				return false
+			case *ast.CallExpr:
+				if tok, ok := table[exprText(x.Fun)]; ok {
+					seq = append(seq, tok)
+				}
+			}
+			return true
+		})
+	}
+	visit(fn.Body, false)
+	return append(seq, deferred...)
+}
+
+func leanList(prefix string, toks []string) string {
+	parts := make([]string, len(toks))
+	for i, t := range toks {
+		parts[i] = prefix + t
+	}
+	return "[" + strings.Join(parts, ", ") + "]"
+}
+
+func emitRuntimeFacts(pkgs map[string]*parsed) string {
+	g := pkgs["gldap"]
+	var sb strings.Builder
+
+	// C05: micro-operation order of (*ResponseWriter).Write
+	w := findFunc(g, "ResponseWriter.Write")
+	seq := callSeq(w, map[string]string{
+		"rw.writerMu.Lock": "lock", "rw.writerMu.Unlock": "unlock", "rw.writer.Write": "write", "rw.writer.Flush": "flush"})
+	sb.WriteString("\n/-- (*ResponseWriter).Write: order of lock / buffer write / flush / unlock (deferred calls last) -/\n")
+	sb.WriteString("def writeSeq : List Writer.WOp := " + leanList(".", seq) + "\n")
+
+	// C05: every ResponseWriter of a connection shares the connection's writer and its one mutex
+	perConn := false
+	sr := findFunc(g, "conn.serveRequests")
+	if sr != nil {
+		ast.Inspect(sr.Body, func(n ast.Node) bool {
+			if c, ok := n.(*ast.CallExpr); ok && exprText(c.Fun) == "newResponseWriter" && len(c.Args) >= 2 {
+				perConn = exprText(c.Args[0]) == "c.writer" && exprText(c.Args[1]) == "&c.writerMu"
+			}
+			return true
+		})
+	}
+	nrw := findFunc(g, "newResponseWriter")
+	stores := false
+	if nrw != nil {
+		t := exprText(nrw.Body)
+		stores = strings.Contains(t, "writerMu: lock") && strings.Contains(t, "writer: w")
+	}
+	sb.WriteString("\n/-- serveRequests hands every ResponseWriter the connection's own writer and its single writerMu -/\n")
+	sb.WriteString("def writerLockPerConn : Bool := " + leanBool(perConn && stores) + "\n")
+	return sb.String()
+}
